@@ -17,7 +17,21 @@ listed findings (extra/findings.json): assertion X03.known_departure, class = na
 """
 import json
 import os
+import re
 import vlib
+
+
+def taken_for_csv(ctx, f, *errs):
+    """the guess of the FILE format (outside X03's statements) takes some FASTA / FASTQ files whose JSON headers hold
+    commas and quotes for CSV: the command then fails or prints rubbish whatever the header format; reported as what
+    it is (listed finding), the file is left out of the header / column events"""
+    if any(re.search(r"\.(fastq|fasta) mime type: text/csv", e or "") for e in errs):
+        ctx.violation("X03.filetype.fastx_taken_for_csv", "fastq" if f["fastq"] else "fasta",
+                      "obiconvert %s: the file is a well-formed %s file (written by the library) and is read as CSV (mime type: text/csv)" %
+                      (os.path.basename(f["file"]), "FASTQ" if f["fastq"] else "FASTA"),
+                      {"file": os.path.basename(f["file"]), "head": open(f["file"], "rb").read(3000).decode("utf8", "replace")})
+        return True
+    return False
 
 
 # ------------------------------------------------------------------ decoding of command outputs
@@ -101,8 +115,11 @@ def command_events(ctx, thorough):
             stage_b.append({"k": k, "variant": variant, "argv": [conv, "--max-cpu", "2"] + opts, "stdin": p})
     rb = ctx.run_many([{"argv": j["argv"], "stdin": j["stdin"]} for j in stage_b], timeout=120)
     evs = []
+    miss = {k for k, f in enumerate(files) if taken_for_csv(ctx, f, r0[k]["err"], ra[k]["err"])}
     for j, r in zip(stage_b, rb):
         k = j["k"]
+        if k in miss:
+            continue
         f = files[k]
         fq = bool(f["fastq"])
         rc = max(abs(r0[k]["rc"]), abs(ra[k]["rc"]), abs(r["rc"]))
@@ -312,17 +329,24 @@ def table_command_events(ctx, thorough):
         keys = sorted({e["k"] for r in recs for e in r["ents"] if e["k"] not in ("count", "taxid", "scientific_name")})[:3] + ["zz"]
         for v in range(4 if thorough else 2):
             n = k * 4 + v
-            o = {"id": True, "count": n % 2 == 0, "taxon": False, "definition": n % 3 == 0, "sequence": n % 4 != 3,
+            o = {"id": True, "count": n % 2 == 0, "taxon": n % 5 == 1, "definition": n % 3 == 0, "sequence": n % 4 != 3,
                  "quality": (k + v) % 2 == 1, "keys": keys}
             na = "NA" if v % 2 == 0 else "MISSING"
-            argv = [ocsv, "--max-cpu", "2", "-i"] + (["--count"] if o["count"] else []) + (["-d"] if o["definition"] else []) + \
+            argv = [ocsv, "--max-cpu", "2", "-i"] + (["--count"] if o["count"] else []) + (["--taxon"] if o["taxon"] else []) + (["-d"] if o["definition"] else []) + \
                 (["-s"] if o["sequence"] else []) + (["-q"] if o["quality"] else []) + [x for key in keys for x in ("-k", key)] + \
                 (["--na-value", na] if na != "NA" else []) + [f["file"]]
             jobs.append({"argv": argv})
-            metas.append({"op": "csvcmd", "argv": " ".join(["obicsv"] + argv[1:-1] + [os.path.basename(f["file"])]), "opts": o, "na": na, "recs": recs})
+            metas.append({"op": "csvcmd", "argv": " ".join(["obicsv"] + argv[1:-1] + [os.path.basename(f["file"])]), "opts": o, "na": na, "recs": recs, "f": f})
     res = ctx.run_many(jobs, timeout=120)
     evs = []
+    seen = set()
     for m, r in zip(metas, res):
+        f = m.pop("f")
+        if re.search(r"\.(fastq|fasta) mime type: text/csv", r["err"] or ""):
+            if f["file"] not in seen:
+                seen.add(f["file"])
+                taken_for_csv(ctx, f, r["err"])
+            continue
         m["rc"] = abs(r["rc"])
         m["hung"] = 1 if r["timeout"] else 0
         rows = list(pycsv.reader(io.StringIO(r["out"].decode("utf8", "replace")))) if r["rc"] == 0 else []
@@ -353,7 +377,12 @@ def table_command_events(ctx, thorough):
 def tables(ctx, thorough):
     """part (c): see spec/L2_io/TextTables.tla"""
     cases = ctx.path("tt_cases.ndjson")
-    ctx.tlc_model("TextTablesMC", "TextTablesMC_thorough.cfg" if thorough else "TextTablesMC_quick.cfg", env={"VERIF_CASES": cases}, timeout=1500)
+    # the ecoPCR cases are lines of 10 kB: one writer (CSVWrite from several workers tears long lines)
+    ctx.tlc_model("TextTablesMC", "TextTablesMC_thorough.cfg" if thorough else "TextTablesMC_quick.cfg", env={"VERIF_CASES": cases}, timeout=1500, workers=1)
+    try:
+        vlib.read_cases(cases)
+    except ValueError as ex:
+        raise vlib.Inconclusive("torn line in the cases exported by TLC: %s" % ex)
     res = ctx.path("tt_res.ndjson")
     ctx.harness(["replay", "X03", "--cases", cases, "--out", res, "--opt", "tables=1"], timeout=1500)
     summ = ctx.add_results(res)
